@@ -217,6 +217,8 @@ def run(run):
         b = prog.bodies[sm[fspan]]
         for r in ex.returns():
             r = strip(r)
+            if r[0] != "agg":
+                r = inline_top(prog, r, keep=r"::scale$")   # `Self::new(self.span.clone(), self.fragment.scale(scale))`
             vals = dict(r[3]) if r[0] == "agg" else {}
             e = strip(vals.get("fragment", ("unknown",)))
             ok = e[0] == "call" and e[1] == sm.get(frag) and is_param(e[2][0], 1, ("fragment",)) and scale_param(e[2][1]) and \
